@@ -297,10 +297,15 @@ def trunc_case(part, kind, fname, length):
         tasks.reset_log(log)
         time.sleep = lambda s: None
         try:
-            out = WP.with_watchdog(lambda: submit(kind, root), 30)
-            to = WP.WATCHDOG["fired"]
-        except WP.Hang:
-            out, to = None, True
+            for budget in (30, 120):  # a time-out only counts if it reproduces with four times the budget
+                target.write_bytes(data[:length])
+                try:
+                    out = WP.with_watchdog(lambda: submit(kind, root), budget)
+                    to = WP.WATCHDOG["fired"]
+                except WP.Hang:
+                    out, to = None, True
+                if not to:
+                    break
         finally:
             time.sleep = real_sleep
         part.traces += 1
